@@ -96,6 +96,8 @@ def gen_gene(rng, name, contig_seq, g0, p0, opts):
     cn_names = [nm for nm in names if nm not in ("up", "down")]
     if opts.get("cn_subset") and len(cn_names) > 2:
         k = rng.randint(2, len(cn_names))
+        if opts["cn_subset"] == "two":
+            k = 2  # copy number judged on two regions only
         keep = set(rng.sample(cn_names, k))
         cn_names = [x for x in cn_names if x in keep]
 
